@@ -103,4 +103,54 @@ theorem augWalk_eq {x y : Frag → Rd.R} {decX : PSlice → Option PCell} {decY 
     · have hb : (info.kind != -1) = true := by simpa using hk
       simp [Tlb.Cell.exotic, hb, hk, srcEntries, mdlEntries]
 
+theorem account_nil (sp : Bool) (r : List Tlb.Cell) : SrcBlk.Account sp ⟨[], r⟩ = none := by
+  simp [SrcBlk.Account, Rd.loadBit]
+
+theorem account_false (sp : Bool) (bs : Bits) (r : List Tlb.Cell) : (SrcBlk.Account sp ⟨false :: bs, r⟩).isSome = true := by
+  simp [SrcBlk.Account, Rd.loadBit, Rd.truthy]
+
+/-- the value reader of the accounts dictionary: regenerated `ShardAccount.deserialize` (with `cell=` kept) against `readShardAccount`
+at the regenerated `Account` parser -/
+theorem shardAccount_agree (s : PSlice) :
+    (SrcLoc.ShardAccount false (psliceFrag s)).map (fun p => cell0 p.1) =
+      (readShardAccount srcOpaque s).map (fun a => some (tcell a)) := by
+  obtain ⟨bits, refs⟩ := s
+  match refs with
+  | [] => simp [SrcLoc.ShardAccount, Rd.viaRef, Rd.loadRef, psliceFrag, tcells_nil, readShardAccount]
+  | acc :: more =>
+    obtain ⟨info, ar⟩ := acc
+    have hacc : srcOpaque.account (.mk info ar) = (SrcBlk.Account (info.kind != -1) ⟨info.bits, tcells ar⟩).isSome := by
+      simp [srcOpaque, tcell_mk, Rd.special, Tlb.Cell.exotic, pfrag, PCell.info, PCell.refs]
+    simp only [SrcLoc.ShardAccount, Rd.viaRef, Rd.loadRef, psliceFrag, tcells_cons, tcell_mk, readShardAccount, PCell.info, hacc,
+      Rd.special, Rd.beginParse, Tlb.Cell.exotic, Tlb.Cell.bits, Tlb.Cell.refs]
+    match hb : info.bits with
+    | [] => simp [account_nil]
+    | false :: bs =>
+      have := account_false (info.kind != -1) bs (tcells ar)
+      rcases hA : SrcBlk.Account (info.kind != -1) ⟨false :: bs, tcells ar⟩ with _ | ⟨av, as⟩
+      · rw [hA] at this; cases this
+      · by_cases hl : bits.length < 320
+        · by_cases h256 : bits.length < 256
+          · simp [hA, Rd.loadBytes, Rd.loadBits, Rd.takeBits, Rd.loadUint, hl, h256]
+          · have h64 : bits.length - 256 < 64 := by omega
+            simp [hA, Rd.loadBytes, Rd.loadBits, Rd.takeBits, Rd.loadUint, hl, h256, h64]
+        · have h256 : ¬ bits.length < 256 := by omega
+          have h64 : ¬ bits.length - 256 < 64 := by omega
+          simp [hA, Rd.loadBytes, Rd.loadBits, Rd.takeBits, Rd.loadUint, hl, h256, h64, cell0, pyAttr, Rd.obj, List.lookup,
+            pyCellItem0, Rd.toCell, Tlb.Cell.refs]
+          rw [tcell_mk, hb]
+    | true :: bs =>
+      rcases hA : SrcBlk.Account (info.kind != -1) ⟨true :: bs, tcells ar⟩ with _ | ⟨av, as⟩
+      · simp
+      · by_cases hl : bits.length < 320
+        · by_cases h256 : bits.length < 256
+          · simp [Rd.loadBytes, Rd.loadBits, Rd.takeBits, Rd.loadUint, hl, h256]
+          · have h64 : bits.length - 256 < 64 := by omega
+            simp [Rd.loadBytes, Rd.loadBits, Rd.takeBits, Rd.loadUint, hl, h256, h64]
+        · have h256 : ¬ bits.length < 256 := by omega
+          have h64 : ¬ bits.length - 256 < 64 := by omega
+          simp [Rd.loadBytes, Rd.loadBits, Rd.takeBits, Rd.loadUint, hl, h256, h64, cell0, pyAttr, Rd.obj, List.lookup,
+            pyCellItem0, Rd.toCell, Tlb.Cell.refs]
+          rw [tcell_mk, hb]
+
 end TonVerif.Proofs.SrcLocate
